@@ -15,6 +15,10 @@ CHECKS = {
    technique="exhaustive enumeration of change lists x size limits x limit-change schedules through the real ChunkedChanges iterator and chunk_range",
    text="All start in 0..=2, spans up to 6 (thorough 8), every subset of [start,last] as present seqs, small/large size per change, 8 limits incl. 0, limit changed after each of the first 2 (thorough 3) chunks to any limit; tiling, containment, order and termination are asserted on every produced chunk list; chunk_range for all lo<=hi<=30 (60) x chunk 1..=12.",
    note="Sizes are two representative byte sizes; the iterator only compares the running sum with the limit. chunk size 0 for chunk_range is excluded (panics in std step_by; the only call site passes 10)."),
+ "C18": dict(engine="members", design="§5 C18",
+   technique="explicit-state BFS (stateright) whose transition function calls the real Members::{add_member,remove_member,add_rtt}; invariants from a fold-by-newest reference model evaluated in every reachable state",
+   text="All reachable states of the member table for 2 actors (3 and 2 identity timestamps), every assignment of address/cluster to identities (64 tables quick, 256 thorough), up/down notifications in any admissible order, RTT samples {1,(40),1000} ms for current and former addresses; presence, identity (ts/address/cluster) and ring/ring0 invariants in every state; shortest counterexample re-derived by FIFO search. 3.4e5 states quick, 3.0e7 thorough, to fix-point.",
+   note="Alphabet assumptions: an identity (actor, ts) has one fixed address and cluster; distinct actors never share an address; a 'down' is only emitted for an identity announced 'up' before; an 'up' never carries an identity older than one reported down. foca itself is trusted."),
 }
 
 NOT_YET = {
@@ -56,6 +60,7 @@ def main():
             "add_only": True,
         },
         "engines": [
+            {"name": "members", "path": "harness/src/bin/members.rs", "serves_properties": ["C18"], "kind_free_text": "stateright BFS over the real Members methods"},
             {"name": "pure", "path": "harness/src/bin/pure.rs", "serves_properties": ["C04", "C08"], "kind_free_text": "exhaustive small-scope enumeration of pure functions against set models"},
         ],
         "checks": checks,
